@@ -484,11 +484,11 @@ theorem C09_load_spec_enabled (f : PickleFile) (levels : Bool)
     (hwf : PickleWF f) (hr : RootsResolvable f)
     (lm : List (Nat × Nat)) (m1 : Mgr)
     (hv : loadVars levels f.vars.length f.vars [] m = (.ok lm, m1))
-    (hg : Contig m1.tbl) :
+    (hg : Contig m1.tbl) (hperm : levels = true → levelsPermutation f.vars = true) :
     ∃ roots' m', loadPickle f levels m = (.ok roots', m') ∧ Inv m' ∧ DmpVarsBij m'.tbl ∧
       Contig m'.tbl ∧ m'.ctx = false ∧ (∀ u n, m.tbl.node? u = some n → m'.tbl.node? u = some n) ∧
       LoadedFrom f m'.tbl roots' ∧ m'.lastLen = m.lastLen ∧ m'.fireIn = m.fireIn :=
-  pickle_load_enabled f levels m hI hb hc hwf hr lm m1 hv hg
+  pickle_load_enabled f levels m hI hb hc hwf hr lm m1 hv hg hperm
 
 /-- non-vacuity: the target `mgrAB` of C12's example with reordering ENABLED and a request due at
 the very next eligible `find_or_add` (`fireIn = 1`): every hypothesis of `C09_load_spec_enabled`
